@@ -191,7 +191,7 @@ def pipeFinish (w : World τ) (p : Name) (ident : Nat) : World τ :=
 /-- next step of `interval()` / `delay()` (timing.py:493-540) -/
 def tickNext (w : World τ) (a : ActId) (fs : List (Frame τ)) (isInterval : Bool) (period last : τ)
     (remaining : Nat) (body : List (Stmt τ)) : World τ :=
-  if remaining == 0 then w.retTo a fs .unit
+  if remaining == 0 then (w.emit a "tend" []).retTo a fs .unit      -- the program leaves the loop (`break`)
   else
     let fr : Frame τ := .tickWait isInterval period last remaining body
     if isInterval then
@@ -781,11 +781,11 @@ def execStmt (w : World τ) (a : ActId) (fs : List (Frame τ)) : Stmt τ → Wor
           if lt (zero : τ) total then w.pipeWindowStart a fs p ident total thr (zero : τ)
           else (w.pipeFinish p ident).retTo a fs .unit
   | .interval period n body =>
-    let w := w.emit a "tbegin" (1 :: tArgs period)
+    let w := w.emit a "tbegin" (1 :: tArgs period ++ [(n : Int)])
     if lt period (zero : τ) then w.raiseNew a fs .valueError
     else w.tickNext a fs true period w.time n body
   | .delayIter period n body =>
-    let w := w.emit a "tbegin" (0 :: tArgs period)
+    let w := w.emit a "tbegin" (0 :: tArgs period ++ [(n : Int)])
     if lt period (zero : τ) then w.raiseNew a fs .valueError
     else w.tickNext a fs false period w.time n body
   | .collect progs =>                                                  -- _concurrent/basics.py collect
